@@ -185,8 +185,7 @@ var trialCounter int64
 
 // minimiseAndReport shrinks a violating run, verifies the replay in a fresh
 // process and writes the replay file.  Returns the replay path.
-func (e *Env) minimiseAndReport(prop, bin, variant string, r *kernel.Result, budget time.Duration) (string, kernel.Violation, error) {
-	v := firstViolation(r, prop)
+func (e *Env) minimiseAndReport(prop, bin, variant string, r *kernel.Result, v kernel.Violation, budget time.Duration) (string, kernel.Violation, error) {
 	rf := &replay.File{Property: prop, World: r.World, Prop: r.Prop, Variant: variant, VerifSeed: r.VerifSeed, Idx: r.Idx, Violation: v, Cfg: r.Cfg, Tape: r.Tape, Trace: r.Trace}
 	if rf.Tape == nil {
 		return "", v, harnessErr("violating run carries no tape")
@@ -277,8 +276,9 @@ func (e *Env) conclude(prop string, a *Agg, binFor func(r *kernel.Result) (strin
 				groups[k] = &grp{v: v}
 				order = append(order, k)
 			}
-			groups[k].runs = append(groups[k].runs, r)
-			break
+			if n := len(groups[k].runs); n == 0 || groups[k].runs[n-1] != r {
+				groups[k].runs = append(groups[k].runs, r)
+			}
 		}
 	}
 	reported := 0
@@ -300,7 +300,7 @@ func (e *Env) conclude(prop string, a *Agg, binFor func(r *kernel.Result) (strin
 		if left < 5*time.Second {
 			left = 5 * time.Second
 		}
-		path, v, err := e.minimiseAndReport(prop, bin, variant, r, left/time.Duration(4-reported))
+		path, v, err := e.minimiseAndReport(prop, bin, variant, r, g.v, left/time.Duration(4-reported))
 		if err != nil {
 			return out, err
 		}
